@@ -415,6 +415,13 @@ try:
     p = os.path.join(root, "nan"); t = create_table(p, schema=S(1, [F(1, "v", "double")])); t.append_records([{"v": float("nan")}])
     g = [r["v"] for r in load_table(p).scan()]
     if not (len(g) == 1 and isinstance(g[0], float) and math.isnan(g[0])): bad.append(("NaN not returned", g))
+    # one append larger than a write batch (1000 rows): the stored bounds must cover ALL rows - falsy extremes (0, 0.0, "", False)
+    # in an early batch and a whole batch of NULLs in between included - or later scans mis-filter
+    p = os.path.join(root, "big"); t = create_table(p, schema=S(1, [F(1, "id", "long"), F(2, "score", "long"), F(3, "s", "string")]))
+    t.append_records([{"id": i, "score": (None if 1000 <= i < 2000 else i), "s": ("" if i == 0 else "k%05d" % i)} for i in range(3000)])
+    for flt, want in (({"id": ("<", 10)}, 10), ({"score": ("<", 500)}, 500), ({"score": (">=", 2500)}, 500), ({"s": ""}, 1), ({"id": 0}, 1)):
+        got = len(list(load_table(p).scan(filter=flt)))
+        if got != want: bad.append(("multi-batch append: filter loses rows (bounds do not cover every batch)", flt, got, want))
     # required fields / unknown fields
     p = os.path.join(root, "req"); t = create_table(p, schema=S(1, [F(1, "a", "long", True), F(2, "b", "string")]))
     for rec in ({"a": None, "b": "x"}, {"b": "x"}, {"a": 1, "zzz": 2}):
